@@ -64,12 +64,15 @@ def fieldNames (targets : List ObjId) : List String :=
 /-- flate2 / weezl are never consulted on the documents the `xt` field is compared on (no `Filter`) -/
 def noExt : Ext := { inflate := fun b => b, lzw := fun _ b => b }
 
-/-- is `extract_text` of this page outside the composed model: a font with a `ToUnicode` entry (C15)
-or a UTF-16 `Encoding` name (encoding_rs), or a content stream with a `Filter` (flate2 / weezl)? -/
+/-- is `extract_text` of this page outside the composed model: a font with a UTF-16 `Encoding` name
+(encoding_rs), or a content / ToUnicode stream with a `Filter` (flate2 / weezl are parameters)? -/
 def xtOutOfModel (os : Objects) (pid : ObjId) : Bool :=
   (match getPageFonts os pid with
    | .ok fonts => fonts.any fun (_, f) =>
-       f.has K_ToUnicode || (match (Dict.get f K_Encoding).bind Obj.asName with
+       (match toUnicodeStream os f with
+        | some (d, _) => d.has K_Filter
+        | none => false) ||
+       (match (Dict.get f K_Encoding).bind Obj.asName with
          | some n => SIMPLE_UTF16_NAMES.contains n
          | none => false)
    | _ => false) ||
